@@ -49,7 +49,7 @@ var pathTemplates = []string{
 var queries = []string{"", "?skipAll=true", "?allowMissingFileHeader=true&allowMissingFileControl=true&allowZeroBatches=true&bypassOrigin=true&bypassDestination=true",
 	"?customTraceNumbers=maybe", "?preserveSpaces=true&allowSpecialCharacters=true&unequalAddendaCounts=true&allowInvalidAmounts=true"}
 
-var seededIDs = []string{"e1", "e2", "e3", "e4", "e5", "e6"}
+var seededIDs = []string{"e1", "e2", "e3", "e4", "e5", "e6", "e7"}
 
 func mustJSON(v any) []byte {
 	b, err := json.Marshal(v)
@@ -141,6 +141,12 @@ func buildHTTPFixtures(t *T, r *gen.Rand) *httpFixtures {
 		m, label := Mutate(mr, pool[i%len(pool)], pool)
 		add(fmt.Sprintf("nacha-mutated-%d(%s)", i, label), m)
 	}
+	ms := mixedSeeds(r.Fork(200))
+	if len(ms) < 2 {
+		return nil
+	}
+	nMixed := add("nacha-mixed-adv-then-standard", ms[0].data)
+	add("nacha-mixed-standard-then-adv", ms[1].data)
 	tp := text(ppd)
 	nTrunc := add("nacha-truncated", tp[:len(tp)*2/3])
 	add("nacha-one-line", bytes.ReplaceAll(tp, []byte("\n"), nil))
@@ -150,8 +156,13 @@ func buildHTTPFixtures(t *T, r *gen.Rand) *httpFixtures {
 	add("json-valid-adv", mustJSON(adv))
 	jTRC := add("json-valid-trc-xck-shr", mustJSON(trc))
 	add("json-returns", mustJSON(ret))
-	add("json-short-individualName", replaceLeaf(jTRC.data, "individualName", "A"))
-	add("json-short-identificationNumber", replaceLeaf(jTRC.data, "identificationNumber", "1"))
+	if f := mk(8, gen.Opts{SECs: []string{"TRC"}, MinBatches: 1, MaxBatches: 1}); f != nil {
+		add("json-trc-individualName-1", replaceLeaf(mustJSON(f), "individualName", "A"))
+		add("json-trc-individualName-7", replaceLeaf(mustJSON(f), "individualName", "ABCDEFG"))
+	}
+	if f := mk(9, gen.Opts{SECs: []string{"SHR"}, MinBatches: 1, MaxBatches: 1}); f != nil {
+		add("json-shr-identificationNumber-1", replaceLeaf(mustJSON(f), "identificationNumber", "1"))
+	}
 	add("json-huge-amount", replaceLeaf(jCCD.data, "amount", json.Number("99999999999999999")))
 	add("json-negative-batchNumber", replaceLeaf(jCCD.data, "batchNumber", json.Number("-1")))
 	add("json-nonascii-origin", replaceLeaf(jCCD.data, "immediateOrigin", "漢字テスト"))
@@ -194,6 +205,7 @@ func buildHTTPFixtures(t *T, r *gen.Rand) *httpFixtures {
 		{"POST", "/files/e4", "/files/{id}", "text/plain", nADV},
 		{"POST", "/files/e5?allowMissingFileControl=true", "/files/{id}", "text/plain", nTrunc},
 		{"POST", "/files/e6", "/files/{id}", "application/json", jTRC},
+		{"POST", "/files/e7", "/files/{id}", "text/plain", nMixed},
 	}
 	return fx
 }
@@ -216,9 +228,30 @@ func serve(h http.Handler, rq request) (outcome, int) {
 	return o, code
 }
 
-func reqInput(rq request, history []string) map[string]any {
+type hist struct {
+	rq   request
+	code int
+}
+
+func (h hist) String() string {
+	return fmt.Sprintf("%s %s [%s] body=%s -> %d", h.rq.method, h.rq.path, h.rq.ct, h.rq.body.name, h.code)
+}
+
+func reqInput(rq request, history []hist) map[string]any {
+	lines := []string{}
+	bodies := map[string]string{}
+	for _, h := range history {
+		lines = append(lines, h.String())
+		if _, ok := bodies[h.rq.body.name]; !ok && h.rq.body.name != rq.body.name {
+			d := h.rq.body.data
+			if len(d) > 6000 {
+				d = d[:6000]
+			}
+			bodies[h.rq.body.name] = clipQ(d)
+		}
+	}
 	return map[string]any{"method": rq.method, "path": rq.path, "content_type": rq.ct, "body_name": rq.body.name, "body_go_quoted": clipQ(rq.body.data),
-		"earlier_state_changing_requests_on_this_handler": history,
+		"earlier_state_changing_requests_on_this_handler": lines, "earlier_bodies_go_quoted": bodies,
 		"replay": "handler built as cmd/server/main.go does (server.NewRepositoryInMemory, server.NewService, server.MakeHTTPHandler); handler.ServeHTTP(httptest.NewRecorder(), request) after the listed earlier requests"}
 }
 
@@ -241,20 +274,20 @@ func runHTTP(t *T) {
 // runHTTPCross: one handler, seeded files, the full cross product in a fixed order.
 func runHTTPCross(t *T, fx *httpFixtures) {
 	h := newHandler()
-	var history []string
+	var history []hist
 	note := func(rq request, code int) {
 		if rq.method != "GET" && rq.method != "HEAD" && rq.method != "OPTIONS" && code >= 200 && code < 300 {
-			history = append(history, fmt.Sprintf("%s %s [%s] body=%s -> %d", rq.method, rq.path, rq.ct, rq.body.name, code))
+			history = append(history, hist{rq, code})
 		}
 	}
-	relevant := func(rq request) []string {
+	relevant := func(rq request) []hist {
 		id := ""
 		if parts := strings.Split(strings.SplitN(rq.path, "?", 2)[0], "/"); len(parts) > 2 && parts[1] == "files" {
 			id = parts[2]
 		}
-		var out []string
+		var out []hist
 		for _, hline := range history {
-			if id != "" && strings.Contains(hline, "/files/"+id) {
+			if id != "" && strings.Contains(hline.rq.path, "/files/"+id) {
 				out = append(out, hline)
 			}
 		}
@@ -309,8 +342,6 @@ func runHTTPCross(t *T, fx *httpFixtures) {
 						}
 						rq := request{method, path, tmpl, ct, b}
 						o, code := serve(h, rq)
-						bodyKind := strings.SplitN(b.name, " ", 2)[0]
-						bodyKind = strings.SplitN(bodyKind, "(", 2)[0]
 						key := fmt.Sprintf("%s %s id=%s ct=%q body=%s", method, tmpl, idKind, ct, b.name)
 						cls := fmt.Sprintf("http/%s %s/%s", method, tmpl, codeClass(code))
 						if code == 404 || code == 405 {
@@ -326,7 +357,6 @@ func runHTTPCross(t *T, fx *httpFixtures) {
 						if seedIdx >= 0 && code < 300 && (method == "DELETE" || (method == "POST" && tmpl == "/files/{id}")) {
 							seedFile(seedIdx)
 						}
-						_ = bodyKind
 					}
 				}
 			}
@@ -386,7 +416,7 @@ func runHTTPWalks(t *T, fx *httpFixtures) {
 		}
 		r := rands[i]
 		h := newHandler()
-		var history []string
+		var history []hist
 		res := caseResult{nontrivial: true, class: "http-walk/ok"}
 		// start from a stored file
 		first := request{"POST", "/files/w1", "/files/{id}", "application/json", pickBody(r, []string{"json-valid", "json-returns"})}
@@ -413,7 +443,7 @@ func runHTTPWalks(t *T, fx *httpFixtures) {
 				res.fails = append(res.fails, toFinding(o, reqInput(rq, history)))
 				break
 			}
-			history = append(history, fmt.Sprintf("%s %s [%s] body=%s -> %d", rq.method, rq.path, rq.ct, rq.body.name, code))
+			history = append(history, hist{rq, code})
 		}
 		res.key = strings.Join(keys, " ; ")
 		return res
